@@ -14,6 +14,8 @@ pub struct SgenCfg {
     pub decorations: bool,
     pub defaults: bool,
     pub namespaces: bool,
+    /// let different types share a simple name in different namespaces (no extra choice is drawn when off)
+    pub same_simple_names: bool,
     pub recursion: bool,
     pub refs: bool,
     /// allow a null-namespace named type nested in a namespaced one (C10 known finding class)
@@ -44,6 +46,7 @@ impl SgenCfg {
             decorations: false,
             defaults: false,
             namespaces: true,
+            same_simple_names: false,
             recursion: true,
             refs: true,
             null_ns_inside: false,
@@ -118,7 +121,22 @@ impl<'c, 'd> Gen<'c, 'd> {
     }
 
     fn named(&mut self, enclosing: &str) -> Named {
-        let name = self.fresh(NAME_STEMS);
+        let mut name = self.fresh(NAME_STEMS);
+        if self.cfg.same_simple_names && self.cfg.namespaces && self.c.chance(1, 4) {
+            // reuse the simple name of an earlier type under another, non-empty namespace
+            let earlier: Vec<String> = self.closed.iter().map(|(f, _)| f.clone()).chain(self.open.iter().map(|(f, _)| f.clone())).collect();
+            if !earlier.is_empty() {
+                let full = &earlier[self.c.pick(earlier.len())];
+                let simple = full.rsplit('.').next().unwrap_or(full).to_string();
+                let ns = NAMESPACES[1 + self.c.pick(NAMESPACES.len() - 1)].to_string();
+                let candidate = format!("{ns}.{simple}");
+                if !earlier.iter().any(|e| *e == candidate) {
+                    let style = if self.c.bool() { NsStyle::Attr } else { NsStyle::Dotted };
+                    name = simple;
+                    return Named { name, ns, style, aliases: vec![], doc: None };
+                }
+            }
+        }
         let (ns, style) = if !self.cfg.namespaces {
             (String::new(), NsStyle::Inherit)
         } else {
